@@ -52,10 +52,50 @@ Definition prop_validate_issued (args : list bytes) : bytes :=
   | _ => bs "badargs"
   end.
 
+(* specification oracle for issuing: the token names the user and carries exactly gen, the user
+   caveat and an expiry of t0 + duration (120 when 0), as Unix seconds.
+   [key; user; t0; d; impl output] *)
+Definition prop_issue (args : list bytes) : bytes :=
+  match args with
+  | [key; user; t0; d; impl] =>
+      let dur := if (z_of d =? 0)%Z then 120%Z else z_of d in
+      let want := join_bytes nl [user; bs "gen = 1"; bs "user_id = " ++ user;
+                                 bs "time < " ++ print_int (z_of t0 + dur)%Z] in
+      if bytes_eqb impl want then bs "ok" else bs "FAIL want=" ++ want
+  | _ => bs "badargs"
+  end.
+
+(* specification oracle for arbitrary caveat lists (closed form, independent of the model's loop):
+   accepted iff same key and the caveats are exactly gen, the user caveat for user' and one
+   time caveat with a parsable expiry in the future, in any order.
+   [key; id; key'; user'; now; cav...; impl verdict] *)
+Definition count_if (f : bytes -> bool) (l : list bytes) : nat := length (filter f l).
+Definition prop_validate_minted (args : list bytes) : bytes :=
+  match args with
+  | key :: id :: key' :: user' :: now :: rest =>
+      match rev rest with
+      | impl :: rcavs =>
+          let cavs := rev rcavs in
+          let is_gen c := bytes_eqb c gen_caveat in
+          let is_user c := bytes_eqb c (user_prefix ++ user') in
+          let is_time c := is_prefix time_prefix c &&
+                           verify_expiry (drop (length time_prefix) c) (z_of now) in
+          let want := bytes_eqb key key' && Nat.eqb (length cavs) 3 &&
+                      Nat.eqb (count_if is_gen cavs) 1 && Nat.eqb (count_if is_user cavs) 1 &&
+                      Nat.eqb (count_if is_time cavs) 1 in
+          if bytes_eqb impl (verdict want) then bs "ok"
+          else bs "FAIL want=" ++ verdict want ++ bs " impl=" ++ impl
+      | [] => bs "badargs"
+      end
+  | _ => bs "badargs"
+  end.
+
 Definition ops_C20 : list (bytes * (list bytes -> bytes)) :=
   [ (bs "C20.validate_minted", run_validate_minted);
     (bs "C20.issue", run_issue);
     (bs "C20.validate_issued", run_validate_issued);
     (bs "C20.verify_expiry", run_verify_expiry);
     (bs "C20.const_refused", fun _ => bs "refused");
-    (bs "C20.prop.validate_issued", prop_validate_issued) ].
+    (bs "C20.prop.validate_issued", prop_validate_issued);
+    (bs "C20.prop.validate_minted", prop_validate_minted);
+    (bs "C20.prop.issue", prop_issue) ].
